@@ -424,7 +424,10 @@ def _exec_run(net, op, ow_op, i, ctx, ctrl_desc, tmpdir, owm):
         return orig_dump(net_, append=append, recycle_options=recycle_options)
     ow.dump_to_file = counting_dump
 
+    step_start = {}
+
     def progress(j, time_step, time_steps, **kw):
+        step_start[j] = wrapper.n          # run invocations issued before this step
         if ow_op["write_time_min"] is not None:
             ctx.fault_configured("clock-jump")
             dt = op["dt"][j % len(op["dt"])]
@@ -559,7 +562,16 @@ def _exec_run(net, op, ow_op, i, ctx, ctrl_desc, tmpdir, owm):
             if t not in df.index:
                 bad("step missing", logged, f"{name}: time step {t} missing from the recorded frame")
                 break
-            live_failed = (t in failed_steps) if flags_known else ref_failed[t]
+            # did the last evaluation of this step raise (seen at the run seam)?
+            lo_n = step_start.get(pos, 0)
+            hi_n = step_start.get(pos + 1, wrapper.n)
+            last_raised = hi_n > lo_n and hi_n in wrapper.raised
+            if last_raised and flags_known and t not in failed_steps:
+                bad("failed step not flagged", logged,
+                    f"{name}: the last power flow evaluation of time step {t} raised, but the step is not recorded "
+                    f"as failed (values {df.loc[t, cols].values[:3]})")
+                break
+            live_failed = ((t in failed_steps) if flags_known else ref_failed[t]) or last_raised
             if live_failed:
                 # the failed evaluation discards the recycled state (net._ppc): the next step starts afresh
                 prev_failed = True
